@@ -2,9 +2,10 @@ import XPathV.Lemmas.ScanProgress
 /-!
 # The scanner's `name` / `prefix` fields persist across non-name tokens
 
-`parseNodeTest` reads `p.r.name` *after* consuming the name token (Go: `p.next(); if p.r.name == "*"`).
-This file shows what it then reads: unless the following token is itself a name (or an axis
-specifier), `nextItem` leaves `name` and `pfx` untouched.
+`parseNodeTest` used to read `p.r.name` *after* consuming the name token (Go: `p.next(); if p.r.name == "*"`);
+it now decides `prefix:*` on the name token itself, so `NameSem` no longer needs this file.  The facts
+about the scanner remain: unless the following token is itself a name (or an axis specifier),
+`nextItem` leaves `name` and `pfx` untouched.
 -/
 namespace XPathV.Lemmas.ScanKeep
 open XPathV XPathV.Model XPathV.Lemmas.ScanProgress
